@@ -5,7 +5,7 @@
    list of objects in TypesInfo.Defs, in whatever order the map happens to be ranged over; the
    import graph is what packages.Load returned.  [all_fixed] is the code with the "fix:" commits
    of this property; the [_before_fix] theorems refute the same statements for the loop as it was. *)
-Require Import Gengo.Base.Bytes Gengo.Model.Universe Gengo.Proofs.Universe.
+Require Import Gengo.Base.Bytes Gengo.Model.Universe Gengo.Proofs.Universe Gengo.Proofs.UniverseWitness.
 From Coq Require Import Permutation Sorting.Sorted.
 
 (* ---- Types() / Constants() / Functions(), Type / Constant / Function(name) ---- *)
@@ -97,7 +97,18 @@ Print Assumptions C13_imports.
 (* ---- SourceDir() / LocateInPackage ---- *)
 
 (* for every implementation of filepath.Join: a package laid out as the go command lays packages
-   out in their module reports the directory that holds its files (no slice panic) *)
+   out in their module reports the directory that holds its files (no slice panic).
+
+   HOW TO READ IT.  The hypothesis [layout join p dir] IS the claim about the file system: it says that
+   the directory holding p's files is  Module.Dir  when PkgPath = Module.Path and
+   Join(Module.Dir, PkgPath[len(Module.Path):])  otherwise (Proofs/Universe.v, [layout]) — which is the
+   expression SourceDir() evaluates.  Nothing in Coq relates [dir] to a real directory; that the go command
+   lays packages out this way (no replace/vendor/overlay surprises) is ASSUMED here and only TESTED by the
+   harness (SourceDir() against the directory of the files packages.Load reports, on every package of every
+   case).  What the theorem itself contributes is small and is exactly this: under that layout the checked
+   slice expression PkgPath[len(Module.Path):] is in range (no panic) and the two branches of SourceDir
+   (the bytes_eqb test and the length test) select the right formula, for every [join].  It is a
+   consistency lemma between the code and the stated layout, not a proof that SourceDir is right. *)
 Theorem C13_source_dir :
   forall (join : bytes -> bytes -> bytes) (p : pinfo) (dir : bytes),
     pi_module p <> None -> layout join p dir -> source_dir join p = Ok dir.
@@ -198,6 +209,50 @@ Example C13_example_imports :
   | _ => False
   end.
 Proof. vm_compute. repeat split; reflexivity. Qed.
+
+(* C13_imports with ALL its hypotheses discharged (Proofs/UniverseWitness.v): a universe of five packages —
+   m imports a, b and "x/dns" -> vendor/x/dns (key <> PkgPath, as in std); a imports b, c; b imports c — with
+   rank = position in go list -deps, and the roots [c; b; a; vendor/x/dns; m] in that (dependencies-first) order.
+   The hypotheses are checked by the boolean [imports_hyps_b] (sound by [imports_hyps_sound]). *)
+Example C13_example_imports_hyps :
+  (forall p nd k t, g_find p wg = Some nd -> In (k, t) (g_imports nd) -> (wg_rk t < wg_rk p)%nat) /\
+  (forall p nd k t, g_find p wg = Some nd -> In (k, t) (g_imports nd) -> g_find t wg <> None) /\
+  (forall p nd, g_find p wg = Some nd -> NoDup (map fst (g_imports nd))) /\
+  (forall r, In r wg_roots -> g_find r wg <> None) /\
+  StronglySorted (fun a b => (wg_rk a < wg_rk b)%nat) wg_roots.
+Proof. exact wg_hyps. Qed.
+
+(* the theorem instantiated on it *)
+Example C13_example_imports_witness :
+  exists n, forall fuel, (n <= fuel)%nat ->
+    exists s, load all_fixed wg fuel wg_roots = Ok s
+      /\ (forall r, In r wg_roots -> universe_package s r <> None)
+      /\ forall p nd k t, universe_package s p <> None -> g_find p wg = Some nd -> In (k, t) (g_imports nd) ->
+           imports_entry s p k = Some (universe_package s t) /\ universe_package s t <> None.
+Proof.
+  exact (C13_imports wg wg_rk (proj1 wg_hyps) (proj1 (proj2 wg_hyps)) (proj1 (proj2 (proj2 wg_hyps)))
+                     wg_roots (proj1 (proj2 (proj2 (proj2 wg_hyps)))) (proj2 (proj2 (proj2 (proj2 wg_hyps))))).
+Qed.
+
+(* ... and computed: five distinct Package values, every Imports() entry is the value Universe.Package returns
+   (the vendored package under the key as written, no entry under its PkgPath) *)
+Example C13_example_imports_computed :
+  exists s, load all_fixed wg 5 wg_roots = Ok s
+    /\ map (universe_package s) wg_roots = [Some 0; Some 1; Some 2; Some 3; Some 4]
+    /\ imports_entry s (bs "m") (bs "a") = Some (Some 2)
+    /\ imports_entry s (bs "m") (bs "b") = Some (Some 1)
+    /\ imports_entry s (bs "m") (bs "x/dns") = Some (Some 3)
+    /\ imports_entry s (bs "m") (bs "vendor/x/dns") = None
+    /\ imports_entry s (bs "a") (bs "c") = Some (Some 0)
+    /\ imports_entry s (bs "b") (bs "c") = Some (Some 0).
+Proof. exact wg_computed. Qed.
+
+(* the same roots with m first: the order hypothesis is false and so is the conclusion (cf. C13_imports_need_root_order) *)
+Example C13_example_imports_wrong_order :
+  imports_hyps_b wg wg_rk [bs "m"; bs "c"; bs "b"; bs "a"; bs "vendor/x/dns"] = false /\
+  exists s, load all_fixed wg 5 [bs "m"; bs "c"; bs "b"; bs "a"; bs "vendor/x/dns"] = Ok s
+    /\ imports_entry s (bs "m") (bs "a") <> Some (universe_package s (bs "a")).
+Proof. exact wg_wrong_order. Qed.
 
 Example C13_example_dirs :
   let m := mk_mod (bs "example.com/m") (bs "/src/m") in
